@@ -452,8 +452,15 @@ func raceChild(c *ev.Ctx, child, pkgFilter string) {
 	}
 	cmd := exec.Command(bin, "-child", child, fmt.Sprint(c.Seed), c.Tier, c.Scratch)
 	cmd.Env = append(os.Environ(), "GORACE=halt_on_error=0 history_size=3")
-	out, err := cmd.CombinedOutput()
-	s := string(out)
+	s, err, timedOut := runWithDeadline(cmd, time.Duration(c.Pick(8, 30))*time.Minute)
+	if timedOut && !strings.Contains(s, "WARNING: DATA RACE") {
+		if hangInside(s, pkgFilter) {
+			c.Violation("hang", "the concurrent driver never finished: a goroutine is blocked for good inside "+pkgFilter+" (deadlock)\n"+tlc.Tail(s, 50), map[string]string{"goroutines.txt": s})
+		} else {
+			c.Inconclusive("race child %s did not finish in time:\n%s", child, tlc.Tail(s, 30))
+		}
+		return
+	}
 	if strings.Contains(s, "WARNING: DATA RACE") {
 		if strings.Contains(s, pkgFilter) {
 			c.Violation("data-race", "Go race detector reports a data race inside "+pkgFilter+" under the concurrent driver\n"+tlc.Tail(s, 60),
